@@ -43,7 +43,7 @@ func c09Exec(m *bMon) func(ctx context.Context, item Result) (Result, error) {
 }
 
 func VH_C09_batch() {
-	vUnwind(10)
+	vUnwind(24)
 	m := &bMon{}
 	bConfig(m)
 	m.stop = vNondet[bool]("stop")
